@@ -98,13 +98,13 @@ def run_case(case):
         x2, y2 = latlon_to_xy(la, lo, lat0, lon0)
         e = math.hypot(x2 - x, y2 - y)
         resid["roundtrip_m"] = max(resid["roundtrip_m"], e)
-        if e > 1e-6:
+        if not e <= 1e-6:
             viol.append({"what": "xy_latlon_xy_roundtrip", "ref": (lat0, lon0), "xy": (x, y), "back": (x2, y2), "err_m": e})
         # latlon -> xy -> latlon
         la2, lo2 = xy_to_latlon(x2, y2, lat0, lon0)
         e = max(abs(float(la2) - la), abs(float(lo2) - lo))
         resid["roundtrip_deg"] = max(resid["roundtrip_deg"], e)
-        if e > 1e-9:
+        if not e <= 1e-9:
             viol.append({"what": "latlon_xy_latlon_roundtrip", "ref": (lat0, lon0), "latlon": (la, lo), "back": (float(la2), float(lo2)), "err_deg": e})
         # origin
         ox, oy = latlon_to_xy(lat0, lon0, lat0, lon0)
@@ -133,12 +133,12 @@ def run_case(case):
                 continue
             rel = abs(d_loc - d_gc) / d_gc
             resid["distance_rel"] = max(resid["distance_rel"], rel)
-            if rel > 1e-3:
+            if not rel <= 1e-3:
                 viol.append({"what": "distance", "ref": (lat0, lon0), "latlon": (la, lo), "local_m": d_loc, "great_circle_m": d_gc, "rel": rel})
             if dist >= 1.0:  # bearing of a sub-metre offset is dominated by rounding of the degrees
                 db = angdiff(b_loc, b_gc)
                 resid["bearing_deg"] = max(resid["bearing_deg"], db)
-                if db > 0.1:
+                if not db <= 0.1:
                     viol.append({"what": "bearing", "ref": (lat0, lon0), "latlon": (la, lo), "local_deg": b_loc, "great_circle_deg": b_gc, "diff": db})
             cell = (int((lat0 + 60) // 20), int((lon0 + 180) // 60), int(math.log10(max(dist, 0.5)) + 1), int(brg // 45) % 8)
             sigs.add(f"{lat0:.6f},{lon0:.6f},{x:.3f},{y:.3f}")
